@@ -132,6 +132,7 @@ impl Real {
     }
 
     fn exec_inner(&mut self, line: &str) -> String {
+        progress(line);
         let expanded;
         let line = if line.starts_with("putpat ") { expanded = expand_putpat(line); &expanded } else { line };
         let t: Vec<&str> = line.split_whitespace().collect();
